@@ -6,7 +6,7 @@
 
 package templates
 
-//@ unit templates_handler frames=on props=C12 filter=`templates\.Templates\)\.ServeHTTP$`
+//@ unit templates_handler frames=on props=C12,C03 filter=`templates\.Templates\)\.ServeHTTP$`
 //@ extern (*github.com/tmpim/casket/caskethttp/httpserver.ResponseBuffer).StatusCodeWriter
 //@ extern github.com/tmpim/casket/caskethttp/httpserver.NewContextWithHeader
 //@ extern (*github.com/tmpim/casket/caskethttp/httpserver.ResponseBuffer).CopyHeader
